@@ -241,6 +241,7 @@ def run(prop, a, seed, t0):
             obligations=n_ob - suppressed,
             discharged=n_ok,
             checker_cmd=f"./check {prop.id} --tier {a.tier}",
+            explanation=getattr(prop, "explanation", "obligations are generated from the real source on every run and discharged as listed in discharged_by_backend; bounded stand-ins are listed separately under `bounded` and never counted as discharged"),
             trusted_base=prop.trusted_base,
             obligations_by_kind=by_kind,
             discharged_by_backend=by_backend,
